@@ -9,6 +9,7 @@ open TsV
 def errName : ErrKind → String
   | .synError => "SynError"
   | .unsupportedType => "UnsupportedType"
+  | .unsupportedItem => "UnsupportedTypeP"
   | .unexpectedToken => "UnexpectedToken"
   | .unexpectedParameterizedTuple => "UnexpectedParameterizedTuple"
   | .numericLiteral => "NumericLiteral"
